@@ -46,7 +46,12 @@ def scripts(draw, flavours=("async-serial", "async-tcp", "sync-serial", "sync-tc
         # the link may come up late: a few refused dials first (each followed by the RT wait), so that it is
         # established long after the gateway object was built
         late = draw(st.sampled_from([0, 0, 1, 3, 4]))
-        return {"flavour": flavour, "rt": rt, "kind": "watchdog", "dials": ["fail"] * late + ["ok"], "latencies": lat, "silent_from": silent, "events": []}
+        case = {"flavour": flavour, "rt": rt, "kind": "watchdog", "dials": ["fail"] * late + ["ok"], "latencies": lat, "silent_from": silent, "events": []}
+        if draw(st.integers(0, 2)) == 0:
+            # the gateway device presents itself as node 0 with a local sensor and takes part in smart sleep:
+            # the keep-alive probe is addressed to node 0 - it must go out all the same
+            case["node0_sleeps"] = True
+        return case
     ev_kinds = ["data", "data", "read_error", "write_error", "abrupt_close", "advance", "advance", "advance_rt", "disconnect", "stop", "swap_callbacks"] + (["peer_eof", "peer_eof"] if tcp else [])
     events = []
     for _ in range(draw(st.integers(1, 10))):
@@ -95,6 +100,12 @@ def run_script(case):
         except Exception as exc:  # pylint: disable=broad-except
             raise Violation(f"start_raises.{case['flavour']}.{type(exc).__name__}", case, f"[{case['flavour']}, RT={case['rt']}] gateway.start() raised {type(exc).__name__}: {exc} with the dial script {case['dials']}; timeline: {timeline(world)}") from exc
         if case["kind"] == "watchdog":
+            if case.get("node0_sleeps"):
+                world.advance((len(case["dials"]) - 1) * case["rt"] + 0.01)
+                conn0 = world.live_conn()
+                if conn0 is not None:
+                    world.peer_data(conn0, b"0;255;0;0;18;2.2\n0;1;0;0;6;local\n0;255;3;0;32;500\n0;255;3;0;22;7\n")
+                    world.settle()
             world.advance((10 + len(case["dials"])) * case["rt"])
         for ev in case["events"]:
             kind = ev[0]
